@@ -54,7 +54,7 @@ ASSUMPTIONS = ['the decidable hypotheses of the Props/C09.v theorems (Pass/Lower
                'unique wire names, dco_okb, fanout_okb) are evaluated on every design and must hold (a false one is '
                'reported as a broken tie); C09_two_way_fanout_preserves additionally assumes in-range cycle-start '
                'values (legal_run), which the generated stimulus satisfies',
-               'designs of weight > 400 (nets + select indices) get the single passes and pairs only (the quadratic '
+               'designs of weight > 300 (nets + select indices) get the single passes and pairs only (the quadratic '
                'well-formedness models would take minutes under repeated one_bit_selects)',
                'ROM contents are tabulated at dump time',
                'initial register/memory values, inputs and default_value are within range',
@@ -767,138 +767,150 @@ def run(ctx):
             except (pyrtl.PyrtlError, pyrtl.PyrtlInternalError) as e:
                 ctx.count('design_build_errors', str(e)[:60])
                 continue
-            ncyc = rng.randint(2, 6 if quick else 12)
-            dflt = 0 if rng.random() < 0.8 else 1
-            regs, ins, mems, regmap, memmap, inputs = make_stimulus(rng, block, ncyc, exhaustive)
-            dump = nlx.Dump(block)
-            names = dump.names()
-            outs = sorted(w.name for w in block.wirevector_subset(pyrtl.Output))
-            in_names = sorted(w.name for w in ins)
-            probes = [(m.id, a) for m in mems for a in range(1 << m.addrwidth)]
-            pss = pass_sequences(ctx, rng, kind, i) if kind != 'huge' else [[p] for p in range(1, 7)]
-            search_only = kind == 'huge'   # the quadratic well-formedness models would take minutes: no tie
-            # wide designs (hundreds of select indices / nets) blow up under repeated one_bit_selects and make the
-            # quadratic well-formedness models take minutes: keep every single pass and the pairs, drop the rest
-            weight = len(block.logic) + sum(len(n.op_param) for n in block.logic if n.op == 's')
-            if weight > 400:
-                pss = [ps for ps in pss if len(ps) == 1 or (len(ps) == 2 and ps.count(4) == 0)][:12]
-                ctx.count('heavy_designs_with_reduced_sequences', kind)
-            stim = '%d %s %s %s %s' % (dflt, dump.regmap(regmap), dump.memmap(memmap),
-                                        dump.inputs(inputs), nlx.pairs(probes))
-            spec_exprs.append('spec_case %s %s' % (dump.coq(), stim))
-            if search_only:
-                exprs.append('[ref_case %s %s]' % (dump.coq(), stim))
-            else:
-                exprs.append('c09_multi [%s] %s %s' % (
-                    '; '.join('[' + '; '.join(str(p) for p in ps) + ']' for ps in pss), dump.coq(), stim))
-            snap = snapshot(block)
-            orig_w, orig_n = real_view(block)
-            runs = []
-            for si, ps in enumerate(pss):
-                restore(block, snap)
-                # half of the cases: the block is passed explicitly (block=b) while a DECOY is the working block
-                explicit = (len(cases) + si) % 2 == 1
-                if explicit:
-                    restore(decoy, decoy_snap)
-                    pyrtl.set_working_block(decoy, no_sanity_check=True)
+            marks = (len(cases), len(exprs), len(spec_exprs), len(extra_exprs), len(extra_ref))
+            try:
+                ncyc = rng.randint(2, 6 if quick else 12)
+                dflt = 0 if rng.random() < 0.8 else 1
+                regs, ins, mems, regmap, memmap, inputs = make_stimulus(rng, block, ncyc, exhaustive)
+                dump = nlx.Dump(block)
+                names = dump.names()
+                outs = sorted(w.name for w in block.wirevector_subset(pyrtl.Output))
+                in_names = sorted(w.name for w in ins)
+                probes = [(m.id, a) for m in mems for a in range(1 << m.addrwidth)]
+                pss = pass_sequences(ctx, rng, kind, i) if kind != 'huge' else [[p] for p in range(1, 7)]
+                search_only = kind == 'huge'   # the quadratic well-formedness models would take minutes: no tie
+                # wide designs (hundreds of select indices / nets) blow up under repeated one_bit_selects and make the
+                # quadratic well-formedness models take minutes: keep every single pass and the pairs, drop the rest
+                weight = len(block.logic) + sum(len(n.op_param) for n in block.logic if n.op == 's')
+                if weight > 300:
+                    pss = [ps for ps in pss if len(ps) == 1 or (len(ps) == 2 and ps.count(4) == 0)][:12]
+                    ctx.count('heavy_designs_with_reduced_sequences', kind)
+                stim = '%d %s %s %s %s' % (dflt, dump.regmap(regmap), dump.memmap(memmap),
+                                            dump.inputs(inputs), nlx.pairs(probes))
+                spec_exprs.append('spec_case %s %s' % (dump.coq(), stim))
+                if search_only:
+                    exprs.append('[ref_case %s %s]' % (dump.coq(), stim))
                 else:
-                    pyrtl.set_working_block(block, no_sanity_check=True)
-                views = []
-                culprit = []
-                steps = []
-
-                def observe(k, steps=steps):
-                    """well-formedness, I/O names and behaviour after EVERY step of the sequence"""
-                    stp = {'k': k, 'sane': True, 'sane_err': None, 'trace': None, 'mem': None}
-                    try:
-                        block.sanity_check()
-                    except Exception as e:
-                        stp['sane'], stp['sane_err'] = False, '%s: %s' % (type(e).__name__, e)
-                    stp['io'] = (sorted(w.name for w in block.wirevector_subset(pyrtl.Input)),
-                                 sorted(w.name for w in block.wirevector_subset(pyrtl.Output)))
-                    if stp['sane']:
-                        try:
-                            stp['trace'], stp['mem'] = simulate(block, regmap, memmap, inputs, dflt, outs, mems)
-                        except Exception as e:
-                            stp['sane'], stp['sane_err'] = False, 'Simulation: %s: %s' % (type(e).__name__, e)
-                    steps.append(stp)
-                opsets = []
-                raised_at, err = run_real(block, ps, views, (decoy, decoy_fp, culprit) if explicit else None,
-                                          observe, opsets)
-                if explicit:
-                    ctx.count('block_argument', 'explicit block= with a decoy working block')
-                    if fingerprint(decoy) != decoy_fp:
-                        ctx.spec_violation('%s:decoy-working-block-changed' % PASSES[(culprit or ps)[0]],
-                                           'passes %s applied with block=b changed the unrelated working block '
-                                           '(block argument not honoured)' % [PASSES[p] for p in ps],
-                                           {'seed': ctx.seed, 'design': i, 'kind': kind,
-                                            'passes': [PASSES[p] for p in ps],
-                                            'decoy_before': sorted(decoy_fp[0]),
-                                            'decoy_after': sorted(str(n) for n in decoy.logic)})
+                    exprs.append('c09_multi [%s] %s %s' % (
+                        '; '.join('[' + '; '.join(str(p) for p in ps) + ']' for ps in pss), dump.coq(), stim))
+                snap = snapshot(block)
+                orig_w, orig_n = real_view(block)
+                runs = []
+                for si, ps in enumerate(pss):
+                    restore(block, snap)
+                    # half of the cases: the block is passed explicitly (block=b) while a DECOY is the working block
+                    explicit = (len(cases) + si) % 2 == 1
+                    if explicit:
                         restore(decoy, decoy_snap)
-                    pyrtl.set_working_block(block, no_sanity_check=True)
-                else:
-                    ctx.count('block_argument', 'working block')
-                r = {'ps': ps, 'steps': steps, 'opsets': opsets, 'before_last': views[0] if views else None, 'raised_at': raised_at, 'err': err, 'sane': None, 'sane_err': None,
-                     'trace': None, 'mem': None}
-                if raised_at is None:
-                    try:
-                        block.sanity_check()
-                        r['sane'] = True
-                    except Exception as e:
-                        r['sane'] = False
-                        r['sane_err'] = '%s: %s' % (type(e).__name__, e)
-                    r['wires'], r['nets'] = real_view(block)
-                    r['io'] = (sorted(w.name for w in block.wirevector_subset(pyrtl.Input)),
-                               sorted(w.name for w in block.wirevector_subset(pyrtl.Output)))
-                    if r['sane']:
+                        pyrtl.set_working_block(decoy, no_sanity_check=True)
+                    else:
+                        pyrtl.set_working_block(block, no_sanity_check=True)
+                    views = []
+                    culprit = []
+                    steps = []
+
+                    def observe(k, steps=steps):
+                        """well-formedness, I/O names and behaviour after EVERY step of the sequence"""
+                        stp = {'k': k, 'sane': True, 'sane_err': None, 'trace': None, 'mem': None}
                         try:
-                            r['trace'], r['mem'] = simulate(block, regmap, memmap, inputs, dflt, outs, mems)
+                            block.sanity_check()
+                        except Exception as e:
+                            stp['sane'], stp['sane_err'] = False, '%s: %s' % (type(e).__name__, e)
+                        stp['io'] = (sorted(w.name for w in block.wirevector_subset(pyrtl.Input)),
+                                     sorted(w.name for w in block.wirevector_subset(pyrtl.Output)))
+                        if stp['sane']:
+                            try:
+                                stp['trace'], stp['mem'] = simulate(block, regmap, memmap, inputs, dflt, outs, mems)
+                            except Exception as e:
+                                stp['sane'], stp['sane_err'] = False, 'Simulation: %s: %s' % (type(e).__name__, e)
+                        steps.append(stp)
+                    opsets = []
+                    raised_at, err = run_real(block, ps, views, (decoy, decoy_fp, culprit) if explicit else None,
+                                              observe, opsets)
+                    if explicit:
+                        ctx.count('block_argument', 'explicit block= with a decoy working block')
+                        if fingerprint(decoy) != decoy_fp:
+                            ctx.spec_violation('%s:decoy-working-block-changed' % PASSES[(culprit or ps)[0]],
+                                               'passes %s applied with block=b changed the unrelated working block '
+                                               '(block argument not honoured)' % [PASSES[p] for p in ps],
+                                               {'seed': ctx.seed, 'design': i, 'kind': kind,
+                                                'passes': [PASSES[p] for p in ps],
+                                                'decoy_before': sorted(decoy_fp[0]),
+                                                'decoy_after': sorted(str(n) for n in decoy.logic)})
+                            restore(decoy, decoy_snap)
+                        pyrtl.set_working_block(block, no_sanity_check=True)
+                    else:
+                        ctx.count('block_argument', 'working block')
+                    r = {'ps': ps, 'steps': steps, 'opsets': opsets, 'before_last': views[0] if views else None, 'raised_at': raised_at, 'err': err, 'sane': None, 'sane_err': None,
+                         'trace': None, 'mem': None}
+                    if raised_at is None:
+                        try:
+                            block.sanity_check()
+                            r['sane'] = True
                         except Exception as e:
                             r['sane'] = False
-                            r['sane_err'] = 'Simulation: %s: %s' % (type(e).__name__, e)
-                        if (i * 7 + si) % 10 < sample_real and 6 not in ps[:-1] and not search_only:
+                            r['sane_err'] = '%s: %s' % (type(e).__name__, e)
+                        r['wires'], r['nets'] = real_view(block)
+                        r['io'] = (sorted(w.name for w in block.wirevector_subset(pyrtl.Input)),
+                                   sorted(w.name for w in block.wirevector_subset(pyrtl.Output)))
+                        if r['sane']:
                             try:
-                                d2 = nlx.Dump(block)
-                                regmap2 = {q: v for q, v in regmap.items() if q in d2.wid}
-                                extra_exprs.append('ref_case %s %d %s %s %s %s' % (
-                                    d2.coq(), dflt, d2.regmap(regmap2), d2.memmap(memmap),
-                                    d2.inputs(inputs), nlx.pairs(probes)))
-                                extra_ref.append((len(cases), si, d2.names()))
-                            except (pyrtl.PyrtlError, pyrtl.PyrtlInternalError):
-                                pass
-                    # attribution run for the and_inverter xor rule: lower '^' with nand_synth first
-                    if 2 in ps and any(n[0] == '^' for n in orig_n):
-                        restore(block, snap)
-                        ps2 = []
-                        for p in ps:
-                            ps2 += [1, 2] if p == 2 else [p]
-                        ra2, _ = run_real(block, ps2)
-                        if ra2 is None:
-                            try:
-                                block.sanity_check()
-                                r['alt_trace'], _m = simulate(block, regmap, memmap, inputs, dflt, outs, mems)
-                            except (pyrtl.PyrtlError, pyrtl.PyrtlInternalError):
-                                pass
-                runs.append(r)
-            restore(block, snap)
-            cases.append(dict(search_only=search_only, i=i, kind=kind, names=names, outs=outs, ins=in_names, pss=pss, runs=runs,
-                              orig=(orig_w, orig_n), inputs=inputs, dflt=dflt,
-                              regmap={q.name: v for q, v in regmap.items()},
-                              memmap={m.name: c for m, c in memmap.items()},
-                              nets=[str(n) for n in dump.nets], nprobes=len(probes), dumpkey=dump.coq()))
-            ctx.count('design_kinds', kind)
-            for n in orig_n:
-                if n[0] in '&|^n' and len(n[2]) == 2 and n[2][0] == n[2][1]:
-                    ctx.count('gates_with_identical_arguments', '%s/%d-bit' % (n[0], orig_w[n[2][0]][0]))
-                if n[0] == 's' and len(n[1]) == orig_w[n[2][0]][0] and tuple(n[1]) != tuple(range(len(n[1]))):
-                    ctx.count('full_width_permuting_selects',
-                              'register' if orig_w[n[2][0]][1] in (4, 5) else
-                              ('input' if orig_w[n[2][0]][1] == 1 else 'wire'))
-            for n in orig_n:
-                ctx.count('ops_before', n[0])
-            ctx.count('registers', len(regs))
-            ctx.count('memories', len(mems))
+                                r['trace'], r['mem'] = simulate(block, regmap, memmap, inputs, dflt, outs, mems)
+                            except Exception as e:
+                                r['sane'] = False
+                                r['sane_err'] = 'Simulation: %s: %s' % (type(e).__name__, e)
+                            if (i * 7 + si) % 10 < sample_real and 6 not in ps[:-1] and not search_only:
+                                try:
+                                    d2 = nlx.Dump(block)
+                                    regmap2 = {q: v for q, v in regmap.items() if q in d2.wid}
+                                    extra_exprs.append('ref_case %s %d %s %s %s %s' % (
+                                        d2.coq(), dflt, d2.regmap(regmap2), d2.memmap(memmap),
+                                        d2.inputs(inputs), nlx.pairs(probes)))
+                                    extra_ref.append((len(cases), si, d2.names()))
+                                except (pyrtl.PyrtlError, pyrtl.PyrtlInternalError):
+                                    pass
+                        # attribution run for the and_inverter xor rule: lower '^' with nand_synth first
+                        if 2 in ps and any(n[0] == '^' for n in orig_n):
+                            restore(block, snap)
+                            ps2 = []
+                            for p in ps:
+                                ps2 += [1, 2] if p == 2 else [p]
+                            ra2, _ = run_real(block, ps2)
+                            if ra2 is None:
+                                try:
+                                    block.sanity_check()
+                                    r['alt_trace'], _m = simulate(block, regmap, memmap, inputs, dflt, outs, mems)
+                                except (pyrtl.PyrtlError, pyrtl.PyrtlInternalError):
+                                    pass
+                    runs.append(r)
+                restore(block, snap)
+                cases.append(dict(search_only=search_only, i=i, kind=kind, names=names, outs=outs, ins=in_names, pss=pss, runs=runs,
+                                  orig=(orig_w, orig_n), inputs=inputs, dflt=dflt,
+                                  regmap={q.name: v for q, v in regmap.items()},
+                                  memmap={m.name: c for m, c in memmap.items()},
+                                  nets=[str(n) for n in dump.nets], nprobes=len(probes), dumpkey=dump.coq()))
+                ctx.count('design_kinds', kind)
+                for n in orig_n:
+                    if n[0] in '&|^n' and len(n[2]) == 2 and n[2][0] == n[2][1]:
+                        ctx.count('gates_with_identical_arguments', '%s/%d-bit' % (n[0], orig_w[n[2][0]][0]))
+                    if n[0] == 's' and len(n[1]) == orig_w[n[2][0]][0] and tuple(n[1]) != tuple(range(len(n[1]))):
+                        ctx.count('full_width_permuting_selects',
+                                  'register' if orig_w[n[2][0]][1] in (4, 5) else
+                                  ('input' if orig_w[n[2][0]][1] == 1 else 'wire'))
+                for n in orig_n:
+                    ctx.count('ops_before', n[0])
+                ctx.count('registers', len(regs))
+                ctx.count('memories', len(mems))
+            except Exception as e:   # a harness failure on one design must not abort the run (fail closed)
+                import traceback
+                for lst, n0 in zip((cases, exprs, spec_exprs, extra_exprs, extra_ref), marks):
+                    del lst[n0:]
+                ctx.model_mismatch('harness error on design %s/%d: %s' % (kind, i, traceback.format_exc()[-600:]),
+                                   {'seed': ctx.seed, 'design': i, 'kind': kind})
+                try:
+                    pyrtl.reset_working_block()
+                except Exception:
+                    pass
     model_ok = True
     try:
         results = robust_eval(ctx, exprs, IMPORTS, 'c09', 3 if quick else 2, 16)
@@ -914,196 +926,201 @@ def run(ctx):
         extra_by[(ci, si)] = (nms, res)
 
     for ci, (c, res) in enumerate(zip(cases, results)):
-        names = c['names']
-        oidx = [names.index(o) for o in c['outs']]
-        cmodel_ok = model_ok and not c['search_only']
-        if model_ok and c['search_only']:
-            res = [[[1] * len(HYPS), [1]] + res[0]]     # [ref_case ...]: final memories, then the cycles
-        orig = res[0]
-        if orig[0][0] != 1 or orig[1][0] != 1:
-            ctx.model_mismatch('sanity_block/wfb false on a design accepted by sanity_check()',
-                               {'design': c['i'], 'kind': c['kind'], 'nets': c['nets']})
-        # decidable hypotheses of the Props/C09.v theorems, evaluated on this design
-        for hname, hval in (zip(HYPS, orig[0]) if cmodel_ok else []):
-            ctx.count('theorem_hypotheses', '%s:%s' % (hname, 'holds' if hval == 1 else 'FAILS'))
-            if hval != 1:
-                ctx.model_mismatch('theorem hypothesis %s is false on a design accepted by sanity_check()' % hname,
+        try:
+            names = c['names']
+            oidx = [names.index(o) for o in c['outs']]
+            cmodel_ok = model_ok and not c['search_only']
+            if model_ok and c['search_only']:
+                res = [[[1] * len(HYPS), [1]] + res[0]]     # [ref_case ...]: final memories, then the cycles
+            orig = res[0]
+            if orig[0][0] != 1 or orig[1][0] != 1:
+                ctx.model_mismatch('sanity_block/wfb false on a design accepted by sanity_check()',
                                    {'design': c['i'], 'kind': c['kind'], 'nets': c['nets']})
-        spec_mem = orig[2]
-        spec_trace = [[row[k] for k in oidx] for row in orig[3:]]
-        canon = Canon(names)
-        orig_w, orig_n = c['orig']
-        for si, (ps, r) in enumerate(zip(c['pss'], c['runs'])):
-            psn = [PASSES[p] for p in ps]
-            if cmodel_ok:
-                flags, mw, morder, mn, mspec = model_view(res[1 + si], names)
-                pre_ok = flags[0] == 1
-            else:
-                flags = mw = morder = mn = mspec = None
-                pre_ok = None
-            rep = {'seed': ctx.seed, 'tier': ctx.tier, 'design': c['i'], 'kind': c['kind'],
-                   'passes': psn, 'nets_before': c['nets'], 'inputs': c['inputs'],
-                   'regmap': c['regmap'], 'memmap': c['memmap'], 'default_value': c['dflt']}
-            changed = r['raised_at'] is None and (collections.Counter(r['nets']) != collections.Counter(orig_n))
-            ctx.case((c['dumpkey'], tuple(ps), repr(c['inputs'])),
-                     nontrivial=changed or r['raised_at'] is not None,
-                     sample=({'design': c['i'], 'kind': c['kind'], 'passes': psn,
-                              'nets_before': c['nets'][:6],
-                              'nets_after': ['%s %s <- %s %s' % (n[3], n[0], ','.join(map(str, n[2])), n[1] or '')
-                                             for n in (r.get('nets') or [])[:8]]}
-                             if ci < 3 and si in (2, 5) else None))
-            ctx.count('pass_sequences', '+'.join(psn) if len(ps) == 1 else ('same pass twice' if len(ps) == 2 and ps[0] == ps[1] else ('pair' if len(ps) == 2 else 'length %d' % len(ps))))
-            # ---- search: obligations after EVERY intermediate step of the sequence
-            for stp in r.get('steps', []):
-                pre = psn[:stp['k'] + 1]
-                if not stp['sane']:
-                    ctx.spec_violation('%s:sanity_check' % pre[-1],
-                                       'block is not well-formed after step %d of %s (%s): %r' % (
-                                           stp['k'] + 1, psn, pre, (stp['sane_err'] or '')[:200]),
-                                       dict(rep, passes=pre, then=psn[stp['k'] + 1:]))
+            # decidable hypotheses of the Props/C09.v theorems, evaluated on this design
+            for hname, hval in (zip(HYPS, orig[0]) if cmodel_ok else []):
+                ctx.count('theorem_hypotheses', '%s:%s' % (hname, 'holds' if hval == 1 else 'FAILS'))
+                if hval != 1:
+                    ctx.model_mismatch('theorem hypothesis %s is false on a design accepted by sanity_check()' % hname,
+                                       {'design': c['i'], 'kind': c['kind'], 'nets': c['nets']})
+            spec_mem = orig[2]
+            spec_trace = [[row[k] for k in oidx] for row in orig[3:]]
+            canon = Canon(names)
+            orig_w, orig_n = c['orig']
+            for si, (ps, r) in enumerate(zip(c['pss'], c['runs'])):
+                psn = [PASSES[p] for p in ps]
+                if cmodel_ok:
+                    flags, mw, morder, mn, mspec = model_view(res[1 + si], names)
+                    pre_ok = flags[0] == 1
+                else:
+                    flags = mw = morder = mn = mspec = None
+                    pre_ok = None
+                rep = {'seed': ctx.seed, 'tier': ctx.tier, 'design': c['i'], 'kind': c['kind'],
+                       'passes': psn, 'nets_before': c['nets'], 'inputs': c['inputs'],
+                       'regmap': c['regmap'], 'memmap': c['memmap'], 'default_value': c['dflt']}
+                changed = r['raised_at'] is None and (collections.Counter(r['nets']) != collections.Counter(orig_n))
+                ctx.case((c['dumpkey'], tuple(ps), repr(c['inputs'])),
+                         nontrivial=changed or r['raised_at'] is not None,
+                         sample=({'design': c['i'], 'kind': c['kind'], 'passes': psn,
+                                  'nets_before': c['nets'][:6],
+                                  'nets_after': ['%s %s <- %s %s' % (n[3], n[0], ','.join(map(str, n[2])), n[1] or '')
+                                                 for n in (r.get('nets') or [])[:8]]}
+                                 if ci < 3 and si in (2, 5) else None))
+                ctx.count('pass_sequences', '+'.join(psn) if len(ps) == 1 else ('same pass twice' if len(ps) == 2 and ps[0] == ps[1] else ('pair' if len(ps) == 2 else 'length %d' % len(ps))))
+                # ---- search: obligations after EVERY intermediate step of the sequence
+                for stp in r.get('steps', []):
+                    pre = psn[:stp['k'] + 1]
+                    if not stp['sane']:
+                        ctx.spec_violation('%s:sanity_check' % pre[-1],
+                                           'block is not well-formed after step %d of %s (%s): %r' % (
+                                               stp['k'] + 1, psn, pre, (stp['sane_err'] or '')[:200]),
+                                           dict(rep, passes=pre, then=psn[stp['k'] + 1:]))
+                        continue
+                    if stp['io'] != (c['ins'], c['outs']):
+                        ctx.spec_violation('%s:io-names' % pre[-1], 'Input/Output names changed by %s' % pre,
+                                           dict(rep, passes=pre, io_after=stp['io']))
+                    if stp['trace'] is not None and (stp['trace'] != spec_trace or stp['mem'] != spec_mem):
+                        ctx.spec_violation('%s:behaviour' % '+'.join(pre),
+                                           '%s changed behaviour (intermediate step %d of %s)' % (pre, stp['k'] + 1, psn),
+                                           dict(rep, passes=pre))
+                    ctx.count('intermediate_steps_checked', len(pre))
+                # ---- search: a pass must accept every block that meets its documented precondition
+                if r['raised_at'] is not None:
+                    k = r['raised_at']
+                    pk = ps[k]
+                    ctx.count('precondition', 'rejected:' + PASSES[pk])
+                    ops_k = set(r['opsets'][k]) if k < len(r['opsets']) else set()
+                    prev_ok = all(stp['sane'] for stp in r['steps'][:k])
+                    if (r['err'] or '').startswith('UNEXPECTED '):
+                        ctx.spec_violation('%s:unexpected-exception' % PASSES[pk],
+                                           '%s died with %s at step %d of %s (only PyrtlError on a block outside the '
+                                           'documented precondition is a legitimate rejection)' % (
+                                               PASSES[pk], r['err'][11:], k + 1, psn),
+                                           dict(rep, passes=psn[:k + 1]))
+                        continue
+                    if prev_ok and ops_k <= DOC_PRE.get(pk, ops_k):
+                        ctx.spec_violation('%s:rejects-legal-block' % PASSES[pk],
+                                           '%s raised %r on a well-formed block that meets its documented precondition '
+                                           '(ops present: %s) at step %d of %s' % (
+                                               PASSES[pk], (r['err'] or '')[:150], ''.join(sorted(ops_k)), k + 1, psn),
+                                           dict(rep, passes=psn[:k + 1], ops_before_the_pass=''.join(sorted(ops_k))))
+                    # ---- precondition tie
+                    if cmodel_ok and pre_ok:
+                        ctx.model_mismatch('real %s raised (%s) but the model precondition holds' % (psn, r['err']),
+                                           rep)
                     continue
-                if stp['io'] != (c['ins'], c['outs']):
-                    ctx.spec_violation('%s:io-names' % pre[-1], 'Input/Output names changed by %s' % pre,
-                                       dict(rep, passes=pre, io_after=stp['io']))
-                if stp['trace'] is not None and (stp['trace'] != spec_trace or stp['mem'] != spec_mem):
-                    ctx.spec_violation('%s:behaviour' % '+'.join(pre),
-                                       '%s changed behaviour (intermediate step %d of %s)' % (pre, stp['k'] + 1, psn),
-                                       dict(rep, passes=pre))
-                ctx.count('intermediate_steps_checked', len(pre))
-            # ---- search: a pass must accept every block that meets its documented precondition
-            if r['raised_at'] is not None:
-                k = r['raised_at']
-                pk = ps[k]
-                ctx.count('precondition', 'rejected:' + PASSES[pk])
-                ops_k = set(r['opsets'][k]) if k < len(r['opsets']) else set()
-                prev_ok = all(stp['sane'] for stp in r['steps'][:k])
-                if (r['err'] or '').startswith('UNEXPECTED '):
-                    ctx.spec_violation('%s:unexpected-exception' % PASSES[pk],
-                                       '%s died with %s at step %d of %s (only PyrtlError on a block outside the '
-                                       'documented precondition is a legitimate rejection)' % (
-                                           PASSES[pk], r['err'][11:], k + 1, psn),
-                                       dict(rep, passes=psn[:k + 1]))
+                if cmodel_ok and not pre_ok:
+                    ctx.model_mismatch('model precondition false but real %s did not raise' % psn, rep)
                     continue
-                if prev_ok and ops_k <= DOC_PRE.get(pk, ops_k):
-                    ctx.spec_violation('%s:rejects-legal-block' % PASSES[pk],
-                                       '%s raised %r on a well-formed block that meets its documented precondition '
-                                       '(ops present: %s) at step %d of %s' % (
-                                           PASSES[pk], (r['err'] or '')[:150], ''.join(sorted(ops_k)), k + 1, psn),
-                                       dict(rep, passes=psn[:k + 1], ops_before_the_pass=''.join(sorted(ops_k))))
-                # ---- precondition tie
-                if cmodel_ok and pre_ok:
-                    ctx.model_mismatch('real %s raised (%s) but the model precondition holds' % (psn, r['err']),
-                                       rep)
-                continue
-            if cmodel_ok and not pre_ok:
-                ctx.model_mismatch('model precondition false but real %s did not raise' % psn, rep)
-                continue
-            ctx.count('precondition', 'accepted')
-            last = ps[-1]
-            rw, rn = r['wires'], r['nets']
-            # ---- search: well-formedness, I/O, postcondition census, behaviour vs ORIGINAL spec
-            if not r['sane']:
-                if 5 in ps and any(n[0] == 'r' and rw.get(n[3], (0, 0))[1] == 2 for n in rn):
-                    sig = 'direct_connect_outputs:register-producer'
-                elif 5 in ps and any(n[0] == 'm' and 'bitwidth mismatch' in (r['sane_err'] or '') for n in rn):
-                    sig = 'direct_connect_outputs:truncating-w-after-memread'
+                ctx.count('precondition', 'accepted')
+                last = ps[-1]
+                rw, rn = r['wires'], r['nets']
+                # ---- search: well-formedness, I/O, postcondition census, behaviour vs ORIGINAL spec
+                if not r['sane']:
+                    if 5 in ps and any(n[0] == 'r' and rw.get(n[3], (0, 0))[1] == 2 for n in rn):
+                        sig = 'direct_connect_outputs:register-producer'
+                    elif 5 in ps and any(n[0] == 'm' and 'bitwidth mismatch' in (r['sane_err'] or '') for n in rn):
+                        sig = 'direct_connect_outputs:truncating-w-after-memread'
+                    else:
+                        sig = '%s:sanity_check' % psn[-1]
+                    ctx.spec_violation(sig, 'block is not well-formed after %s: sanity_check raises %r' % (
+                        psn, (r['sane_err'] or '')[:200]), dict(rep, nets_after=[str(n) for n in rn]))
+                if r['io'] != (c['ins'], c['outs']):
+                    ctx.spec_violation('%s:io-names' % psn[-1], 'Input/Output names changed by %s' % psn,
+                                       dict(rep, io_after=r['io']))
+                for tag, detail in post_real(last, rw, rn):
+                    sig = '%s:%s' % (PASSES[last], tag)
+                    if last == 4 and any(n[0] == 's' and orig_w[n[3]][0] < len(n[1]) for n in orig_n):
+                        sig = 'one_bit_selects:truncating-dest'
+                    if last == 5 and r['before_last'] is not None:
+                        # the left-over 'w t -> o': before the pass o was fed through a chain t -w-> t2 -w-> o
+                        bn = r['before_last'][1]
+                        t, o = detail[1][2][0], detail[1][3]
+                        for n2 in bn:
+                            if n2[0] == 'w' and n2[3] == o and any(
+                                    n1[0] == 'w' and n1[3] == n2[2][0] and n1[2][0] == t for n1 in bn):
+                                sig = 'direct_connect_outputs:w-chain-not-fixpoint'
+                        detail = '%s producer' % detail[0][0]
+                    ctx.spec_violation(sig, 'postcondition of %s violated after %s: %s %s' % (
+                        PASSES[last], psn, tag, detail), dict(rep, nets_after=[str(n) for n in rn]))
+                if cmodel_ok:
+                    ctx.count('postcondition_model', '%s:%d' % (PASSES[last], flags[1]))
+                if r['trace'] is not None:
+                    bad = None
+                    for t, (a, b) in enumerate(zip(spec_trace, r['trace'])):
+                        if a != b:
+                            k = [x != y for x, y in zip(a, b)].index(True)
+                            bad = (t, c['outs'][k], a[k], b[k])
+                            break
+                    if bad is None and r['mem'] != spec_mem:
+                        bad = ('final', 'memory', spec_mem, r['mem'])
+                    if bad:
+                        sig = '%s:behaviour' % '+'.join(psn)
+                        if r.get('alt_trace') == spec_trace:
+                            sig = 'and_inverter_synth:xor-rule'
+                        ctx.spec_violation(sig, '%s changed behaviour: cycle %s output %s expected %s got %s' % (
+                            psn, bad[0], bad[1], bad[2], bad[3]),
+                            dict(rep, first_difference={'cycle': bad[0], 'wire': bad[1], 'expected': bad[2],
+                                                        'got': bad[3]}))
+                if not cmodel_ok:
+                    continue
+                # ---- tie: well-formedness verdicts
+                if (flags[2] == 1) != bool(r['sane']):
+                    ctx.model_mismatch('sanity verdicts differ after %s: model %d real %s (%s)' % (
+                        psn, flags[2], r['sane'], r['sane_err']), rep)
+                # ---- tie: census
+                rc, mc = census(rw, rn), census(mw, mn)
+                if 6 in ps[:-1]:
+                    # which tree leaf feeds which reader follows set order in the real pass, so after a
+                    # later rewrite (e.g. xor reads each argument twice) per-wire fan-out legitimately differs
+                    rc_cmp, mc_cmp = dict(rc, fanout=None), dict(mc, fanout=None)
                 else:
-                    sig = '%s:sanity_check' % psn[-1]
-                ctx.spec_violation(sig, 'block is not well-formed after %s: sanity_check raises %r' % (
-                    psn, (r['sane_err'] or '')[:200]), dict(rep, nets_after=[str(n) for n in rn]))
-            if r['io'] != (c['ins'], c['outs']):
-                ctx.spec_violation('%s:io-names' % psn[-1], 'Input/Output names changed by %s' % psn,
-                                   dict(rep, io_after=r['io']))
-            for tag, detail in post_real(last, rw, rn):
-                sig = '%s:%s' % (PASSES[last], tag)
-                if last == 4 and any(n[0] == 's' and orig_w[n[3]][0] < len(n[1]) for n in orig_n):
-                    sig = 'one_bit_selects:truncating-dest'
-                if last == 5 and r['before_last'] is not None:
-                    # the left-over 'w t -> o': before the pass o was fed through a chain t -w-> t2 -w-> o
-                    bn = r['before_last'][1]
-                    t, o = detail[1][2][0], detail[1][3]
-                    for n2 in bn:
-                        if n2[0] == 'w' and n2[3] == o and any(
-                                n1[0] == 'w' and n1[3] == n2[2][0] and n1[2][0] == t for n1 in bn):
-                            sig = 'direct_connect_outputs:w-chain-not-fixpoint'
-                    detail = '%s producer' % detail[0][0]
-                ctx.spec_violation(sig, 'postcondition of %s violated after %s: %s %s' % (
-                    PASSES[last], psn, tag, detail), dict(rep, nets_after=[str(n) for n in rn]))
-            if cmodel_ok:
-                ctx.count('postcondition_model', '%s:%d' % (PASSES[last], flags[1]))
-            if r['trace'] is not None:
-                bad = None
-                for t, (a, b) in enumerate(zip(spec_trace, r['trace'])):
-                    if a != b:
-                        k = [x != y for x, y in zip(a, b)].index(True)
-                        bad = (t, c['outs'][k], a[k], b[k])
-                        break
-                if bad is None and r['mem'] != spec_mem:
-                    bad = ('final', 'memory', spec_mem, r['mem'])
-                if bad:
-                    sig = '%s:behaviour' % '+'.join(psn)
-                    if r.get('alt_trace') == spec_trace:
-                        sig = 'and_inverter_synth:xor-rule'
-                    ctx.spec_violation(sig, '%s changed behaviour: cycle %s output %s expected %s got %s' % (
-                        psn, bad[0], bad[1], bad[2], bad[3]),
-                        dict(rep, first_difference={'cycle': bad[0], 'wire': bad[1], 'expected': bad[2],
-                                                    'got': bad[3]}))
-            if not cmodel_ok:
-                continue
-            # ---- tie: well-formedness verdicts
-            if (flags[2] == 1) != bool(r['sane']):
-                ctx.model_mismatch('sanity verdicts differ after %s: model %d real %s (%s)' % (
-                    psn, flags[2], r['sane'], r['sane_err']), rep)
-            # ---- tie: census
-            rc, mc = census(rw, rn), census(mw, mn)
-            if 6 in ps[:-1]:
-                # which tree leaf feeds which reader follows set order in the real pass, so after a
-                # later rewrite (e.g. xor reads each argument twice) per-wire fan-out legitimately differs
-                rc_cmp, mc_cmp = dict(rc, fanout=None), dict(mc, fanout=None)
-            else:
-                rc_cmp, mc_cmp = rc, mc
-            if rc_cmp != mc_cmp:
-                ctx.model_mismatch('census differs after %s: real %s model %s' % (psn, rc, mc), rep)
-            for o, k in rc['ops'].items():
-                ctx.count('ops_after', o, k)
-            for f, k in rc['fanout'].items():
-                if last == 6:
-                    ctx.count('fanout_after_two_way_fanout', f, k)
-            # ---- tie: structure
-            if 6 not in ps:
-                if canon.canon(rw, rn) != canon.canon(mw, mn):
-                    ctx.model_mismatch('canonical netlists differ after %s' % psn,
-                                       dict(rep, real=[str(n) for n in rn], model=[str(n) for n in mn]))
+                    rc_cmp, mc_cmp = rc, mc
+                if rc_cmp != mc_cmp:
+                    ctx.model_mismatch('census differs after %s: real %s model %s' % (psn, rc, mc), rep)
+                for o, k in rc['ops'].items():
+                    ctx.count('ops_after', o, k)
+                for f, k in rc['fanout'].items():
+                    if last == 6:
+                        ctx.count('fanout_after_two_way_fanout', f, k)
+                # ---- tie: structure
+                if 6 not in ps:
+                    if canon.canon(rw, rn) != canon.canon(mw, mn):
+                        ctx.model_mismatch('canonical netlists differ after %s' % psn,
+                                           dict(rep, real=[str(n) for n in rn], model=[str(n) for n in mn]))
+                    else:
+                        ctx.count('structural_tie', 'equal')
+                elif ps == [6]:
+                    a = canon.canon(rw, rn, collapse_w_trees=True)
+                    b = canon.canon(mw, mn, collapse_w_trees=True)
+                    o = canon.canon(orig_w, orig_n)
+                    if not (a == b == o):
+                        ctx.model_mismatch('two_way_fanout: collapsing the trees does not give back the original',
+                                           dict(rep, real=[str(n) for n in rn], model=[str(n) for n in mn]))
+                    else:
+                        ctx.count('structural_tie', 'equal-modulo-leaf-assignment')
                 else:
-                    ctx.count('structural_tie', 'equal')
-            elif ps == [6]:
-                a = canon.canon(rw, rn, collapse_w_trees=True)
-                b = canon.canon(mw, mn, collapse_w_trees=True)
-                o = canon.canon(orig_w, orig_n)
-                if not (a == b == o):
-                    ctx.model_mismatch('two_way_fanout: collapsing the trees does not give back the original',
-                                       dict(rep, real=[str(n) for n in rn], model=[str(n) for n in mn]))
-                else:
-                    ctx.count('structural_tie', 'equal-modulo-leaf-assignment')
-            else:
-                ctx.count('structural_tie', 'census-only(pair with two_way_fanout)')
-            # ---- tie: behaviour (model result under the reference semantics vs real result)
-            if r['trace'] is not None and flags[2] == 1:
-                if flags[5] == 0:
-                    ctx.model_mismatch('wfb false on the model result of %s' % psn, rep)
-                ctx.count('wfb_of_model_result', {1: 'true', 0: 'false', 2: 'not-evaluated(>60 nets)'}[flags[5]])
-                midx = [morder.index(o) for o in c['outs']]
-                mtrace = [[row[k] for k in midx] for row in mspec[1:]]
-                if mtrace != r['trace'] or mspec[0] != r['mem']:
-                    ctx.model_mismatch('model result and real result behave differently after %s' % psn, rep)
-            if (ci, si) in extra_by and r['trace'] is not None:
-                nms, sres = extra_by[(ci, si)]
-                ridx = [nms.index(o) for o in c['outs']]
-                rtrace = [[row[k] for k in ridx] for row in sres[1:]]
-                ctx.count('real_result_under_reference_semantics', 'checked')
-                if rtrace != r['trace'] or sres[0] != r['mem']:
-                    ctx.model_mismatch('reference semantics of the dumped real result of %s differs from '
-                                       'its Simulation' % psn, rep)
+                    ctx.count('structural_tie', 'census-only(pair with two_way_fanout)')
+                # ---- tie: behaviour (model result under the reference semantics vs real result)
+                if r['trace'] is not None and flags[2] == 1:
+                    if flags[5] == 0:
+                        ctx.model_mismatch('wfb false on the model result of %s' % psn, rep)
+                    ctx.count('wfb_of_model_result', {1: 'true', 0: 'false', 2: 'not-evaluated(>60 nets)'}[flags[5]])
+                    midx = [morder.index(o) for o in c['outs']]
+                    mtrace = [[row[k] for k in midx] for row in mspec[1:]]
+                    if mtrace != r['trace'] or mspec[0] != r['mem']:
+                        ctx.model_mismatch('model result and real result behave differently after %s' % psn, rep)
+                if (ci, si) in extra_by and r['trace'] is not None:
+                    nms, sres = extra_by[(ci, si)]
+                    ridx = [nms.index(o) for o in c['outs']]
+                    rtrace = [[row[k] for k in ridx] for row in sres[1:]]
+                    ctx.count('real_result_under_reference_semantics', 'checked')
+                    if rtrace != r['trace'] or sres[0] != r['mem']:
+                        ctx.model_mismatch('reference semantics of the dumped real result of %s differs from '
+                                           'its Simulation' % psn, rep)
+        except Exception:   # a harness failure while analysing one design must not abort the run (fail closed)
+            import traceback
+            ctx.model_mismatch('harness error while analysing design %s/%s: %s' % (
+                c.get('kind'), c.get('i'), traceback.format_exc()[-600:]), {'seed': ctx.seed})
 
 
 def replay(ctx, data):
